@@ -41,6 +41,8 @@ def main():
             return 0
         if args.selftest:
             return mod.selftest()
+        if args.tier == 'thorough' and not os.environ.get('VERIF_CHUNK_BUDGET'):
+            common.CHUNK_BUDGET = 1500
         out = common.Outcome(prop, args.tier, seed)
         mod.run(out)
         return out.finish()
